@@ -1,4 +1,4 @@
-\* deep: histories of 5 successive calls, growth by powers of two (one component or per-block uniform)
+\* deep: histories of 3 successive calls, growth by powers of two (one component or per-block uniform)
 CONSTANTS
   Designs <- DesignsDeep
   Growths <- G2x
@@ -8,7 +8,7 @@ CONSTANTS
   FromInput <- FromBoth
   ExplicitTargets = FALSE
   Refusals = FALSE
-  MaxLevel = 6
+  MaxLevel = 4
 INIT Init
 NEXT Next
 CONSTRAINT Bound
